@@ -118,7 +118,7 @@ func checkC15(c *fw.Ctx) {
 	if fn := mustFunc(c, "1 make_join", "HandleMakeJoin"); fn != nil {
 		tmpl := "dyn(*&param:input.BuildEventTemplate)(local:*gmsl.ProtoEvent)"
 		requireOnSuccess(c, "1 make_join", "HandleMakeJoin", fn, []need{
-			nd("the remote supports the room version", true, "gmsl.roomVersionSupported(*&param:input.RoomVersion,*&param:input.RemoteVersions)"),
+			nd("the remote supports the room version", true, "param:input.RoomVersion", "param:input.RemoteVersions"),
 			nd("the user belongs to the requesting server", true, ".Domain(&param:input.UserID) == *&param:input.RequestOrigin)"),
 			nd("the local server is in the room", true, "*&param:input.LocalServerInRoom"),
 			nd("the restricted-join check passed", true, ".CheckRestrictedJoin(", "#1 == nil)"),
